@@ -156,6 +156,8 @@ def run_sched(case: Dict[str, Any]) -> Dict[str, Any]:
 
     clock.install()
     clock.FakeDT.source = now_dt
+    if case.get("local_zone"):
+        clock.set_local(case["local_zone"])       # the scheduler process lives in a DST zone
     res: Dict[str, Any] = {"crashed": False, "deadlock": False, "loop_exc": None}
     try:
         b = KickBroker(now_us, case.get("latencies") or [0.0], set(case.get("kick_fail", ())))
@@ -246,6 +248,8 @@ def run_sched(case: Dict[str, Any]) -> Dict[str, Any]:
     finally:
         clock.FakeDT.source = None
         clock.uninstall()
+        if case.get("local_zone"):
+            clock.set_local()
         try:
             loop.max_iterations = 0
             pend = [x for x in asyncio.all_tasks(loop) if not x.done()]
